@@ -72,12 +72,17 @@ def payloadOk (t : Track) : Ob → Bool
 def payloadStep (pre : Snap) (t : Track) (s : Step) : Bool :=
   s.obs.all (payloadOk (trackEv pre t s.ev))
 
-/-- "Fires": whenever no batch is in flight, every send that was dispatched has fired (given that
-    the client accounted for every payload of every request, C07). -/
+/-- is this send exempt from "fires"?  Only if the client broke its contract (C07) for the send's OWN batch: some
+    result for it did not account for every payload of its request (and, with acks = 0 - there are no responses to
+    account for: what is not reported failed was handed over - was not even shaped like an answer to a request
+    without acknowledgements).  Sends of other batches, earlier or later, are never exempt. -/
+def exempt (cfg : Cfg) (t : Track) (sid : Sid) : Bool :=
+  t.ex1.contains sid && (cfg.acks != producerAckNotRequired || t.ex0.contains sid)
+
+/-- "Fires": whenever no batch is in flight, every send that was dispatched has fired - every outstanding send is
+    still queued - except the sends of a batch for which the client did not account (`exempt`). -/
 def resolvedFiredStep (cfg : Cfg) (pre : Snap) (t : Track) (s : Step) : Bool :=
-  -- (with acks = 0 there are no responses to account for: what is not reported failed was handed over)
-  !((track pre t s).acct || (cfg.acks == producerAckNotRequired && (track pre t s).acct0)) || !s.post.idle ||
-    s.post.outstanding.all (· ∈ s.post.queue)
+  !s.post.idle || s.post.outstanding.all (fun x => s.post.queue.contains x || exempt cfg (track pre t s) x)
 
 /-- With acknowledgements disabled the client's empty answer (request handed to the connection) is
     the send's success: no send fails with NoResponseError in such a step. -/
